@@ -2158,7 +2158,7 @@ func genTrans(repo, outDir string) error {
 	var sb strings.Builder
 	sb.WriteString("-- REGENERATED by /verif/tools/extract (translate.go) from /repo on every check run. Do not edit.\n")
 	sb.WriteString("-- Go → Lean translation of the whitelisted functions; subset and semantics: tools/extract/translate.go.\n")
-	sb.WriteString("import Corerad.Basic\nimport Corerad.Model.Config\nimport Corerad.Model.ListUtil\nimport Corerad.Model.RA\n\n")
+	sb.WriteString("import Corerad.Basic\nimport Corerad.Model.Config\nimport Corerad.Model.ListUtil\nimport Corerad.Model.RA\nimport Corerad.Model.Handle\n\n")
 	sb.WriteString("set_option linter.unusedVariables false\n\nnamespace Corerad.Gen.Trans\n\nopen Corerad\n\n")
 	defer func() { curTag = "" }()
 	for _, spec := range whitelist {
@@ -2258,6 +2258,18 @@ func genTrans(repo, outDir string) error {
 		}
 		facts["TransC06.Advertiser_schedule_mc"] = strings.Join(all, "\n")
 		facts["TransC06.Advertiser_schedule_mc.go"] = src
+	}
+	// the decision of (*Advertiser).handle (translate_handle.go)
+	curTag = "TransC07"
+	if p, err := loadPkg(repo, "internal/corerad"); err != nil {
+		failf("translate: Advertiser.handle: %v", err)
+	} else if d, err := translateHandle(p); err != nil {
+		failf("%s", err)
+		sb.WriteString("-- NOT TRANSLATED: " + docSafe(err.Error()) + "\n\n")
+		facts["TransC07.Advertiser_handle"] = "NOT TRANSLATED: " + err.Error()
+	} else {
+		sb.WriteString(d.text + "\n\n")
+		facts["TransC07.Advertiser_handle"] = d.text
 	}
 	// the lifetime computed by NewPREF64 (translate_synth.go)
 	curTag = "TransC01"
